@@ -29,7 +29,7 @@ def mk_bare(data):
     return {k: (v.copy() if v.ndim else v[()]) for k, v in data.items()}
 
 
-def mk_unyt(t, data, units, registry=None, factors=None):
+def mk_unyt(t, data, units, registry=None, factors=None, by_name=None):
     """units: slot -> unit (string or Unit); factors: slot -> number the bare data is multiplied by
     (exact rescaling used by C07 so that the physical quantity is unchanged)."""
     out = {}
@@ -44,6 +44,10 @@ def mk_unyt(t, data, units, registry=None, factors=None):
         if factors and slot in factors and factors[slot] != 1:
             x = x * factors[slot]
         u = units[slot]
+        if by_name and name in by_name:
+            # this one input re-expressed on its own: (unit, factor)
+            u = by_name[name][0]
+            x = v.copy() * by_name[name][1] if by_name[name][1] != 1 else v.copy()
         if distinct:
             from unyt.unit_object import Unit as _U
 
